@@ -160,6 +160,12 @@ int main(int argc, char** argv) {
             }
             edn_arena_destroy(a);
             buf_free(&b);
+#ifdef H_NO_LEAF
+        /* the static leaf functions no longer have the shape these direct calls were written for: the harness was
+           rebuilt without them (tools/build.py); every direct leaf call answers NOLEAF, which the model never does */
+        } else if (!strcmp(cmd, "int64") || !strcmp(cmd, "swar") || !strcmp(cmd, "swarall") || !strcmp(cmd, "double") || !strcmp(cmd, "gcd")) {
+            printf("NOLEAF\n");
+#else
         } else if (!strcmp(cmd, "int64") && nt == 4) {
             /* number.c parse_int64_from_buffer (static) */
             buf_t b = buf_from_hex(tok[1]);
@@ -199,6 +205,7 @@ int main(int argc, char** argv) {
 #else
             printf("NA\n");
 #endif
+#endif /* H_NO_LEAF */
         } else if (!strcmp(cmd, "script") && nt == 2) {
             run_script(tok[1]);
         } else if (!strcmp(cmd, "reg") && nt == 2) {
